@@ -208,6 +208,9 @@ def run(chk, prog):
     # operation on the same object) -- the must-rewrite analysis decided under C18 R1; re-evaluated here
     from .common import reeval
     reeval(chk, prog, "C18", lambda i: i["rule"] == "R1", "R5", "R5-current-profile-only", 6)
+    # ---- R6: spectrum and wake are computed from one and the same profile: what is placed in the padded train is the projection itself
+    # (C06 R1; re-evaluated here)
+    reeval(chk, prog, "C06", lambda i: i["rule"] == "R1", "R6", "R6-same-profile", 4)
     # ---- RD: dimensional consistency of the quantities this property depends on (sa/dims.py) ----------------------------------------
     from . import dimrules
     nrd = dimrules.run(chk, prog, "RD")
